@@ -199,6 +199,10 @@ var goChunks = []string{
 	"var pq, ij = 1, 2",
 	"type iface interface{ F() }",
 	"func init() {\n\tprintln(\"p\")\n}",
+	// non-ASCII text in comments and strings: runes whose low byte is a line break, a blank, a bracket, a quote
+	"// " + gen.CollisionRunes + " tail of the comment",
+	"var greeting = \"" + gen.CollisionRunes + "\" // č 上 😊",
+	"var raw2 = `\nĊ first\nč second 不\n`",
 }
 
 func (c *Ctx) genC11(i int, risky bool) c11File {
@@ -233,7 +237,7 @@ func (c *Ctx) genC11(i int, risky bool) c11File {
 	}
 	// the same path may be imported under an alias, dot or blank name AND plainly: both lines are kept
 	imps := []string{`"fmt"`, `str "strings"`, `. "math"`, `_ "embed"`, `"context"`, `"io"`, `"fmt"`, `"github.com/stackus/goht"`,
-		`"strings"`, `"math"`, `"embed"`, `"io/fs"`, `f "fmt"`, `"fmt" // formatted I/O`, `ctx "context"`}
+		`"strings"`, `"math"`, `"embed"`, `"io/fs"`, `f "fmt"`, `"fmt" // formatted I/O`, `ctx "context"`, `"os" // č 上 not the end`}
 	r.Shuffle(len(imps), func(a, b int) { imps[a], imps[b] = imps[b], imps[a] })
 	imps = imps[:r.Intn(len(imps)+1)]
 	seen := map[string]bool{`"context"`: true, `"io"`: true, `"github.com/stackus/goht"`: true}
